@@ -935,6 +935,117 @@ theorem victim_state (budget b : Nat) : ∀ m, m < budget →
     simp only [h, if_true] at a4
     exact ⟨a1, a4, a2, a3⟩
 
+/-! ### density of the table: an invariant of this code, not an assumption about it -/
+
+/-- the table is dense and every count a session still holds is at most the current number of rows -/
+def Dense (s : St) : Prop :=
+  DenseIds s.ids ∧ ∀ i k, s.pc i = .counted k → k ≤ s.ids.length
+
+theorem start_eq_init (ids₀ : List Nat) (h : DenseIds ids₀) : St.start ids₀ = St.init ids₀.length := by
+  unfold St.start St.init; rw [← h]
+
+theorem dense_start (ids₀ : List Nat) (h : DenseIds ids₀) : Dense (St.start ids₀) :=
+  ⟨h, by simp [St.start]⟩
+
+theorem dense_init (b : Nat) : Dense (St.init b) :=
+  ⟨by simp [DenseIds, St.init], by simp [St.init]⟩
+
+private theorem dense_read (s : St) (x : Nat) (h : Dense s) :
+    Dense { s with pc := upd s.pc x (.counted s.ids.length) } := by
+  refine ⟨h.1, ?_⟩
+  intro i k hk
+  by_cases hi : i = x
+  · subst hi
+    have : k = s.ids.length := by simpa using hk.symm
+    show k ≤ s.ids.length
+    omega
+  · exact h.2 i k (by simpa [upd_other _ hi] using hk)
+
+private theorem dense_pc (s : St) (x : Nat) (v : PC) (r : Nat → Nat) (hv : ∀ k, v ≠ .counted k) (h : Dense s) :
+    Dense { s with pc := upd s.pc x v, retries := r } := by
+  refine ⟨h.1, ?_⟩
+  intro i k hk
+  by_cases hi : i = x
+  · subst hi; exact absurd (by simpa using hk) (hv k)
+  · exact h.2 i k (by simpa [upd_other _ hi] using hk)
+
+private theorem dense_accept (s : St) (x k : Nat) (hpc : s.pc x = .counted k) (hk : s.ids.contains k = false)
+    (h : Dense s) : Dense { s with ids := s.ids ++ [k], pc := upd s.pc x (.done k), log := s.log ++ [x] } := by
+  have hkeq : k = s.ids.length := by
+    have : ¬ k < s.ids.length := by
+      intro hlt
+      have : s.ids.contains k = true := by rw [h.1]; simpa using hlt
+      rw [hk] at this; cases this
+    have := h.2 x k hpc
+    omega
+  refine ⟨?_, ?_⟩
+  · show s.ids ++ [k] = List.range (s.ids ++ [k]).length
+    rw [hkeq, List.length_append, List.length_singleton, List.range_succ, ← h.1]
+  · intro i k' hk'
+    show k' ≤ (s.ids ++ [k]).length
+    simp only [List.length_append, List.length_singleton]
+    by_cases hi : i = x
+    · subst hi; simp at hk'
+    · have := h.2 i k' (by simpa [upd_other _ hi] using hk'); omega
+
+theorem dense_stepRetry (s : St) (x : Nat) (h : Dense s) : Dense (stepRetry s x) := by
+  cases hpc : s.pc x with
+  | idle => rw [stepRetry_idle s x hpc]; exact dense_read s x h
+  | counted k =>
+    cases hk : s.ids.contains k with
+    | true => rw [stepRetry_reject s x k hpc hk]; exact dense_pc s x .idle _ (by intro k e; cases e) h
+    | false => rw [stepRetry_accept s x k hpc hk]; exact dense_accept s x k hpc hk h
+  | done k => rw [stepRetry_done s x k hpc]; exact h
+  | failed k => rw [stepRetry_failed s x k hpc]; exact h
+
+theorem dense_stepOld (s : St) (x : Nat) (h : Dense s) : Dense (stepOld s x) := by
+  cases hpc : s.pc x with
+  | idle => rw [stepOld_idle s x hpc]; exact dense_read s x h
+  | counted k =>
+    cases hk : s.ids.contains k with
+    | true =>
+      rw [stepOld_reject s x k hpc hk]
+      exact dense_pc s x (.failed k) s.retries (by intro k e; cases e) h
+    | false => rw [stepOld_accept s x k hpc hk]; exact dense_accept s x k hpc hk h
+  | done k => rw [stepOld_done s x k hpc]; exact h
+  | failed k => rw [stepOld_failed s x k hpc]; exact h
+
+theorem dense_run (step : St → Nat → St) (hstep : ∀ s x, Dense s → Dense (step s x)) :
+    ∀ (σ : List Nat) (s : St), Dense s → Dense (run step σ s)
+  | [], _, h => h
+  | x :: σ, s, h => dense_run step hstep σ (step s x) (hstep s x h)
+
+/-! ### a table with a gap: the loop never terminates -/
+
+/-- on the table {0, 2} every session is for ever idle or holding the count 2, and nothing is inserted -/
+def GapStuck (s : St) : Prop :=
+  s.ids = [0, 2] ∧ ∀ i, s.pc i = .idle ∨ s.pc i = .counted 2
+
+theorem gapStuck_step (s : St) (x : Nat) (h : GapStuck s) : GapStuck (stepRetry s x) := by
+  obtain ⟨hids, hpcs⟩ := h
+  rcases hpcs x with hpc | hpc
+  · rw [stepRetry_idle s x hpc]
+    refine ⟨hids, ?_⟩
+    intro i
+    by_cases hi : i = x
+    · subst hi; right; simp [hids]
+    · rcases hpcs i with h' | h'
+      · left; simpa [upd_other _ hi] using h'
+      · right; simpa [upd_other _ hi] using h'
+  · have hk : s.ids.contains 2 = true := by rw [hids]; decide
+    rw [stepRetry_reject s x 2 hpc hk]
+    refine ⟨hids, ?_⟩
+    intro i
+    by_cases hi : i = x
+    · subst hi; left; simp
+    · rcases hpcs i with h' | h'
+      · left; simpa [upd_other _ hi] using h'
+      · right; simpa [upd_other _ hi] using h'
+
+theorem gapStuck_run : ∀ (σ : List Nat) (s : St), GapStuck s → GapStuck (run stepRetry σ s)
+  | [], _, h => h
+  | x :: σ, s, h => gapStuck_run σ (stepRetry s x) (gapStuck_step s x h)
+
 theorem victim_mem : ∀ m i, i ∈ victim m → i < m + 1 := by
   intro m
   induction m with
